@@ -451,11 +451,12 @@ package gtfs
 
 //@ pure func eventFaithful(out *StopTimeEvent, in *gtfsrt.TripUpdate_StopTimeEvent, tz *time.Location) bool = (in == nil ==> out == nil) && (in != nil ==> out != nil && out.Uncertainty == in.Uncertainty && (in.Time == nil ==> out.Time == nil) && (in.Time != nil ==> out.Time != nil && unix(*out.Time) == *in.Time && loc(*out.Time) == tz) && (in.Delay == nil ==> out.Delay == nil) && (in.Delay != nil ==> out.Delay != nil && *out.Delay == *in.Delay * 1000000000))
 //@ pure func stuFaithful(out StopTimeUpdate, in *gtfsrt.TripUpdate_StopTimeUpdate, tz *time.Location) bool = out.StopSequence == in.StopSequence && out.StopID == in.StopId && eventFaithful(out.Arrival, in.Arrival, tz) && eventFaithful(out.Departure, in.Departure, tz) && (in.ScheduleRelationship == nil ==> out.ScheduleRelationship == 0) && (in.ScheduleRelationship != nil ==> out.ScheduleRelationship == *in.ScheduleRelationship)
-//@ pure func wfTripUpdate(tu *gtfsrt.TripUpdate) bool = tu != nil && (forall k int :: 0 <= k && k < len(tu.StopTimeUpdate) ==> tu.StopTimeUpdate[k] != nil)
+// (elements of repeated message fields are non-nil: a type invariant of generated messages kept by the VC generator,
+// see "safe:protoelem" in /verif/DESIGN.md)
 
 //@ func parseTripUpdate
 //@   props C02 C04 C05 C07
-//@   requires wfTripUpdate(tripUpdate) && opts != nil && opts.Extension != nil
+//@   requires tripUpdate != nil && opts != nil && opts.Extension != nil
 //@   ensures [no-descriptor] tripUpdate.Trip == nil ==> !result.2 && result.0 == nil && result.1 == nil
 //@   ensures [trip] tripUpdate.Trip != nil ==> result.2 && result.0 != nil && fresh(result.0) && result.0.IsEntityInMessage && result.0.Vehicle == nil && result.0.ID.ID == strOrEmpty(tripUpdate.Trip.TripId) && result.0.ID.RouteID == strOrEmpty(tripUpdate.Trip.RouteId)
 //@   ensures [one-update-per-wire-update] tripUpdate.Trip != nil ==> len(result.0.StopTimeUpdates) == len(tripUpdate.StopTimeUpdate)
@@ -463,7 +464,8 @@ package gtfs
 //@   ensures [no-vehicle] tripUpdate.Trip != nil && tripUpdate.Vehicle == nil ==> result.1 == nil
 //@   ensures [vehicle] tripUpdate.Trip != nil && tripUpdate.Vehicle != nil ==> result.1 != nil && fresh(result.1) && !result.1.IsEntityInMessage && result.1.Trip == nil && result.1.Position == nil && result.1.Timestamp == nil && result.1.StopID == nil
 //@   ensures [vehicle-id] tripUpdate.Trip != nil && tripUpdate.Vehicle != nil && strOrEmpty(tripUpdate.Vehicle.Id) != "" ==> result.1.ID != nil && result.1.ID.ID == strOrEmpty(tripUpdate.Vehicle.Id) && result.1.ID.Label == strOrEmpty(tripUpdate.Vehicle.Label) && result.1.ID.LicensePlate == strOrEmpty(tripUpdate.Vehicle.LicensePlate)
-//@   loop 1 invariant trip != nil && len(trip.StopTimeUpdates) == $i && opts != nil && opts.Extension != nil
+//@   assigns nothing
+//@   loop 1 invariant trip != nil && len(trip.StopTimeUpdates) == $i && opts != nil && opts.Extension != nil && fresh(trip) && fresh(trip.StopTimeUpdates)
 //@   loop 1 invariant [ids] forall k int :: 0 <= k && k < $i ==> trip.StopTimeUpdates[k].StopSequence == tripUpdate.StopTimeUpdate[k].StopSequence && trip.StopTimeUpdates[k].StopID == tripUpdate.StopTimeUpdate[k].StopId
 //@   loop 1 invariant [rel] forall k int :: 0 <= k && k < $i ==> (tripUpdate.StopTimeUpdate[k].ScheduleRelationship == nil ==> trip.StopTimeUpdates[k].ScheduleRelationship == 0) && (tripUpdate.StopTimeUpdate[k].ScheduleRelationship != nil ==> trip.StopTimeUpdates[k].ScheduleRelationship == *tripUpdate.StopTimeUpdate[k].ScheduleRelationship)
 //@   loop 1 invariant [arr] forall k int :: 0 <= k && k < $i ==> eventFaithful(trip.StopTimeUpdates[k].Arrival, tripUpdate.StopTimeUpdate[k].Arrival, tzOf(opts))
@@ -473,8 +475,6 @@ package gtfs
 // ----------------------------------------------------------------------------------------------------------------
 // C12 — alerts
 
-//@ pure func wfAlert(a *gtfsrt.Alert) bool = a != nil && (forall k int :: 0 <= k && k < len(a.ActivePeriod) ==> a.ActivePeriod[k] != nil) && (forall k int :: 0 <= k && k < len(a.InformedEntity) ==> a.InformedEntity[k] != nil) && wfText(a.HeaderText) && wfText(a.DescriptionText) && wfText(a.Url)
-//@ pure func wfText(t *gtfsrt.TranslatedString) bool = t == nil || (forall k int :: 0 <= k && k < len(t.Translation) ==> t.Translation[k] != nil)
 //@ pure func informsSomething(e AlertInformedEntity) bool = e.AgencyID != nil || e.RouteID != nil || e.RouteType != RouteType_Unknown || e.StopID != nil || identifiable(e.TripID)
 // the entity a selector is transcribed to (C12: "represented ... by an entity with exactly those values")
 //@ pure func transcribes(e AlertInformedEntity, sel *gtfsrt.EntitySelector) bool = e.AgencyID == sel.AgencyId && e.RouteID == sel.RouteId && e.StopID == sel.StopId && e.RouteType == parseRouteType_GTFSRealtime(sel.RouteType) && e.DirectionID == parseDirectionID_GTFSRealtime(sel.DirectionId) && (e.TripID != nil ==> sel.Trip != nil && identifiable(e.TripID) && e.TripID.ID == strOrEmpty(sel.Trip.TripId) && e.TripID.RouteID == strOrEmpty(sel.Trip.RouteId))
@@ -486,7 +486,6 @@ package gtfs
 
 //@ func buildAlertText
 //@   props C02 C05
-//@   requires wfText(ts)
 //@   ensures [absent] ts == nil ==> len(result) == 0
 //@   ensures [one-per-translation] ts != nil ==> len(result) == len(ts.Translation)
 //@   ensures [faithful] ts != nil ==> (forall k int :: 0 <= k && k < len(result) ==> result[k].Text == strOrEmpty(ts.Translation[k].Text) && result[k].Language == strOrEmpty(ts.Translation[k].Language))
@@ -496,14 +495,15 @@ package gtfs
 
 //@ func parseAlert
 //@   props C02 C05 C12
-//@   requires wfAlert(alert) && opts != nil
+//@   requires alert != nil && opts != nil
 //@   ensures [alert] result.0 != nil && fresh(result.0) && result.0.ID == ID
 //@   ensures [every-entity-informs] forall k int :: 0 <= k && k < len(result.0.InformedEntities) ==> informsSomething(result.0.InformedEntities[k])
 //@   ensures [trip-ids-identify] forall k int :: 0 <= k && k < len(result.0.InformedEntities) ==> (result.0.InformedEntities[k].TripID != nil ==> identifiable(result.0.InformedEntities[k].TripID))
 //@   ensures [active-periods] len(result.0.ActivePeriods) == len(alert.ActivePeriod)
-//@   loop 1 invariant len(activePeriods) == $i && opts != nil
-//@   loop 2 invariant opts != nil && informedRoutes != nil && informedRoutesFromTripIDs != nil
-//@   loop 2 invariant forall r string :: has(informedRoutesFromTripIDs, r) ==> informedRoutesFromTripIDs[r] != nil
+//@   assigns nothing
+//@   loop 1 invariant len(activePeriods) == $i && opts != nil && fresh(activePeriods)
+//@   loop 2 invariant opts != nil && informedRoutes != nil && informedRoutesFromTripIDs != nil && fresh(informedRoutes) && fresh(informedRoutesFromTripIDs) && fresh(informedEntities) && fresh(trips)
+//@   loop 2 invariant forall r string :: has(informedRoutesFromTripIDs, r) ==> informedRoutesFromTripIDs[r] != nil && fresh(informedRoutesFromTripIDs[r])
 //@   loop 2 invariant forall k int :: 0 <= k && k < len(informedEntities) ==> informsSomething(informedEntities[k]) && (informedEntities[k].TripID != nil ==> identifiable(informedEntities[k].TripID))
 //@   loop 2 step len(informedEntities) == athead(2, len(informedEntities)) || (len(informedEntities) == athead(2, len(informedEntities)) + 1 && transcribes(informedEntities[len(informedEntities) - 1], alert.InformedEntity[athead(2, $i)]))
 //@   loop 2 step len(informedEntities) == athead(2, len(informedEntities)) + 1 || !(alert.InformedEntity[athead(2, $i)].AgencyId != nil || alert.InformedEntity[athead(2, $i)].RouteId != nil || alert.InformedEntity[athead(2, $i)].StopId != nil || parseRouteType_GTFSRealtime(alert.InformedEntity[athead(2, $i)].RouteType) != RouteType_Unknown)
@@ -516,5 +516,21 @@ package gtfs
 //@   loop 2 step [recorded-direction-1-kept] forall r string :: athead(2, has(informedRoutesFromTripIDs, r) && informedRoutesFromTripIDs[r][DirectionID_True]) ==> has(informedRoutesFromTripIDs, r) && informedRoutesFromTripIDs[r][DirectionID_True]
 //@   loop 4 step [fallback-suppressed-by-explicit-route] informedRoutes[routeIDsFromTripIDs[athead(4, $i)]] ==> informedEntities == athead(4, informedEntities)
 //@   loop 4 step [fallback-entity] !informedRoutes[routeIDsFromTripIDs[athead(4, $i)]] ==> len(informedEntities) == athead(4, len(informedEntities)) + 1 && fallbackFor(informedEntities[len(informedEntities) - 1], routeIDsFromTripIDs[athead(4, $i)], informedRoutesFromTripIDs[routeIDsFromTripIDs[athead(4, $i)]])
+//@   loop 3 invariant fresh(routeIDsFromTripIDs) && fresh(informedEntities)
+//@   loop 4 invariant fresh(informedEntities)
 //@   loop 3 invariant forall k int :: 0 <= k && k < len(informedEntities) ==> informsSomething(informedEntities[k]) && (informedEntities[k].TripID != nil ==> identifiable(informedEntities[k].TripID))
 //@   loop 4 invariant forall k int :: 0 <= k && k < len(informedEntities) ==> informsSomething(informedEntities[k]) && (informedEntities[k].TripID != nil ==> identifiable(informedEntities[k].TripID))
+
+// ----------------------------------------------------------------------------------------------------------------
+// ParseRealtime (C04, C06, C07, C18; C02 for the header timestamp)
+
+// the per-parse state of the bundled extensions is well formed (only the NYCT alerts extension has any)
+//@ pure func extOK(x extensions.Extension) bool = x != nil && (isType(x, "extensions/nyctalerts.extension") ==> groupsOK(asType(x, "extensions/nyctalerts.extension")))
+
+//@ func ParseRealtime
+//@   props C02 C04 C05 C06 C07 C12 C18
+//@   requires opts != nil
+//@   ensures [error-or-result] (result.1 == nil) == (result.0 != nil)
+//@   ensures [error-iff-not-protobuf] result.1 == nil <==> pbOK(bytesOf(content))
+//@   ensures [fresh-result] result.0 != nil ==> fresh(result.0)
+//@   assigns nothing
